@@ -360,7 +360,7 @@ DOMAINS: Dict[str, List[Any]] = {
 #: the fixed working schemas of the pipeline enumerator
 SCHEMAS: Dict[str, Dict[str, str]] = {
     "d": {"g": "str", "k": "int", "x": "float", "y": "float"},
-    "f": {"g": "str", "k": "int", "x": "float", "y": "float"},  # concat partner of d
+    "f": {"y": "float", "g": "str", "x": "float", "k": "int"},  # concat partner of d: same columns in ANOTHER physical order (UNION ALL is positional)
     "e": {"k": "int", "z": "float"},  # join partner, same-named key
     "h": {"k2": "int", "z": "float"},  # join partner, differently named key
     "c": {"k": "int", "x": "float"},  # join partner with an overlapping non-key column
